@@ -197,6 +197,20 @@ class PathCtx(object):
                 self.s.add(z3.Not(g))
                 self.s.check()
                 model = self.model_inputs(self.s.model())
+                # prefer a small counter-model (replayable natively): bound the tracked integer inputs
+                for lo, hi in ((-1, 4), (-2, 8)):
+                    self.s.push()
+                    try:
+                        for b in self._small_bounds(lo, hi):
+                            self.s.add(b)
+                        self.s.set('timeout', 3000)
+                        if self.s.check() == z3.sat:
+                            model = self.model_inputs(self.s.model())
+                            model['_small'] = True
+                            break
+                    finally:
+                        self.s.pop()
+                        self.s.set('timeout', PROVE_TIMEOUT_MS)
                 self.s.pop()
                 st = 'failed'
                 if self.has_quant:
@@ -255,6 +269,26 @@ class PathCtx(object):
             s2.add(a)
         s2.add(extra)
         return s2.to_smt2()
+
+    def _small_bounds(self, lo=-2, hi=12):
+        out = []
+
+        def walk(v):
+            if isinstance(v, z3.ArithRef) and v.sort() == z3.IntSort():
+                out.append(z3.And(v >= lo, v <= hi))
+            elif isinstance(v, (list, tuple)):
+                for x in v:
+                    walk(x)
+            elif isinstance(v, dict):
+                for x in v.values():
+                    walk(x)
+            elif isinstance(v, Opt):
+                walk(v.val)
+            elif isinstance(v, (NodeV, NodeId, Opaque)):
+                pass
+        for k, v in self.inputs.items():
+            walk(v)
+        return out
 
     def track(self, name, v):
         self.inputs[name] = v
